@@ -1,6 +1,6 @@
 """C18 — Numbers print, parse and round (structural clauses only)."""
 
-from ..rules import builtins, exceptions, operators, tables, textparse
+from ..rules import builtins, exceptions, operators, optargs, tables, textparse
 
 FAMILIES = set("number".split(","))
 PREFIXES = "_make_number_method|_number_to_base|js_round|_global_parse|_create_number_constructor|_create_math_object|_global_is".split("|")
@@ -25,3 +25,6 @@ def run(ctx, rep):
     operators.rule_host_rounding_special_points(ctx, rep, "C18-R8")
     textparse.rule_script_whitespace(ctx, rep, "C18-R7", only=lambda q: _in_family(q) or q.startswith("values:to_number"))
     rep.undecided += ["the method result tables over the argument grid (values, not shape): a runtime differential, outside static analysis"]
+    optargs.rule_missing_is_undefined(ctx, rep, "C18-R9", lambda f: _in_family(f.qual), "the Number methods, Number, parseInt, parseFloat and Math", floor=6)
+    optargs.rule_argument_not_overridden(ctx, rep, "C18-R10", lambda f: _in_family(f.qual), "the number parsers and formatters", floor=2)
+    operators.rule_log_poles(ctx, rep, "C18-R11")
